@@ -110,7 +110,9 @@ where
     type AlignAs = FlatVecAlignAs<T, L>;
 
     unsafe fn ptr_from_bytes(bytes: *mut [u8]) -> *mut Self {
-        let meta = floor_mul(slice_ptr_len(bytes) - Self::DATA_OFFSET, Self::ALIGN) / T::SIZE;
+        let space = floor_mul(slice_ptr_len(bytes) - Self::DATA_OFFSET, Self::ALIGN);
+        // Zero-sized items take no space: the capacity is then limited by the length type only.
+        let meta = if T::SIZE != 0 { space / T::SIZE } else { usize::MAX };
         ptr::slice_from_raw_parts_mut(bytes as *mut u8, meta) as *mut Self
     }
     unsafe fn ptr_to_bytes(this: *mut Self) -> *mut [u8] {
